@@ -172,6 +172,13 @@ def run(rep, tier, rng):
                     bind_case(algs.rand_vec(rng, la), algs.rand_vec(rng, lb), "unequal-grid")
         for la, lb in ((2, 1), (8, 16), (16, 8), (4, 16), (16, 4), (6, 9), (9, 6), (3, 9), (9, 3), (32, 16), (8, 4)):
             bind_case(algs.rand_vec(rng, la), algs.rand_vec(rng, lb), "unequal-grid")
+        # superposition of unequal lengths is rejected as well - also when one operand has length 1 (NumPy would broadcast it)
+        for la, lb in ((1, 2), (2, 1), (1, 4), (4, 1), (1, 16), (16, 1), (1, 9), (3, 4), (4, 3), (16, 17), (9, 16), (1, 1), (4, 4)):
+            a, bb = algs.rand_vec(rng, la), algs.rand_vec(rng, lb)
+            o = c.observe(lambda: A.superpose(algs.fl(a), algs.fl(bb)))
+            add(f"check_superpose {c.zlist(a)} {c.zlist(bb)} {algs.tol_for(a, a)} {obs_t(o, algs.enc_vec)}",
+                {"op": "superpose", "alg": al, "a": a, "b": bb, "kind": "unequal-lengths" if la != lb else "equal-lengths", "obs": c.obs_json(o)},
+                ("superpose-len", al, tuple(a), tuple(bb)))
         # invalid dimensionalities for the square algebras
         if al != "AHrr":
             for d, zero in [(dd, z) for dd in (2, 3, 5, 8, 12, 15) for z in (False, True)]:
@@ -180,6 +187,69 @@ def run(rep, tier, rng):
                 add(f"check_bind {al} {c.zlist(v)} {c.zlist(v)} {algs.tol_for(v, v, d=d)} {obs_t(o, algs.enc_vec)}",
                     {"op": "bind", "alg": al, "a": v, "b": v, "kind": "invalid-d", "obs": c.obs_json(o)},
                     ("bind", al, tuple(v), tuple(v)))
+
+        # ---- call history on one algebra object -----------------------------------------------------------
+        # (a) larger dimensionalities first, then smaller ones; (b) the caller scribbles over what it was handed
+        hd = [dd for dd in algs.dims_for(al, 16 if al == "AHrr" else 25)]
+        for d in sorted(hd, reverse=True):
+            v = algs.rand_vec(rng, d)
+            for swap in (False, True):
+                pre = f"A.get_binding_matrix(np.ones({max(hd)}))\n"
+                o = c.observe(lambda: A.get_binding_matrix(algs.fl(v), swap_inputs=swap))
+                add(f"check_bmat {al} {c.zlist(v)} {c.b(swap)} {algs.tol_for(v, d=1)} {obs_t(o, algs.enc_mat)}",
+                    {"op": "bmat", "alg": al, "v": v, "swap": swap, "kind": "after-larger-dimensionality", "obs": c.obs_json(o),
+                     "python": algs.PRELUDE + f"A = {algs.alg_py(al)}\n" + pre + f"v = np.array({v}, float)\nM = A.get_binding_matrix(v, swap_inputs={swap})\n"
+                     f"x = np.arange(1.0, {d} + 1)\nassert np.allclose(M @ x, A.bind(v, x) if {swap} else A.bind(x, v)), 'binding matrix after a larger one differs from binding'\n"},
+                    ("bmat-desc", al, tuple(v), swap), nontrivial=any(v))
+            o = c.observe(lambda: A.bind(algs.fl(v), algs.fl(v[::-1])))
+            add(f"check_bind {al} {c.zlist(v)} {c.zlist(v[::-1])} {algs.tol_for(v, v, d=d)} {obs_t(o, algs.enc_vec)}",
+                {"op": "bind", "alg": al, "a": v, "b": v[::-1], "kind": "after-larger-dimensionality", "obs": c.obs_json(o)},
+                ("bind-desc", al, tuple(v)), nontrivial=any(v))
+        for d in hd[:6] if quick else hd:
+            v = algs.rand_vec(rng, d)
+
+            def scribble(x):
+                try:
+                    if isinstance(x, np.ndarray):
+                        x *= -0.5
+                        x.flat[0] = 7.0
+                except ValueError:
+                    pass          # read-only results are fine
+            for swap in (False, True):
+                first = c.observe(lambda: A.get_binding_matrix(algs.fl(v), swap_inputs=swap))
+                if first[0] == "ok":
+                    scribble(first[1])
+                o = c.observe(lambda: A.get_binding_matrix(algs.fl(v), swap_inputs=swap))
+                add(f"check_bmat {al} {c.zlist(v)} {c.b(swap)} {algs.tol_for(v, d=1)} {obs_t(o, algs.enc_mat)}",
+                    {"op": "bmat", "alg": al, "v": v, "swap": swap, "kind": "after-caller-modified-the-previous-result", "obs": c.obs_json(o),
+                     "python": algs.PRELUDE + f"A = {algs.alg_py(al)}\nv = np.array({v}, float)\nM0 = A.get_binding_matrix(v, swap_inputs={swap})\n"
+                     f"try:\n    M0 *= -0.5\nexcept ValueError:\n    pass\nM = A.get_binding_matrix(v, swap_inputs={swap})\n"
+                     f"x = np.arange(1.0, {d} + 1)\nassert np.allclose(M @ x, A.bind(v, x) if {swap} else A.bind(x, v)), 'binding matrix changed after the caller modified an earlier result'\n"},
+                    ("bmat-scribbled", al, tuple(v), swap), nontrivial=any(v))
+            for sd in ("SLeft", "SRight", "STwo"):
+                first = c.observe(lambda: A.get_inversion_matrix(d, sidedness=algs.side_obj(sd)))
+                if first[0] == "ok":
+                    scribble(first[1])
+                o = c.observe(lambda: A.get_inversion_matrix(d, sidedness=algs.side_obj(sd)))
+                add(f"check_imat {al} {c.nat(d)} {sd} (1%Z, 1000000000%Z) {obs_t(o, algs.enc_mat)}",
+                    {"op": "imat", "alg": al, "d": d, "side": sd, "kind": "after-caller-modified-the-previous-result", "obs": c.obs_json(o),
+                     "python": algs.PRELUDE + f"A = {algs.alg_py(al)}\nM0 = A.get_inversion_matrix({d}, sidedness={algs.SIDE_PY[sd]})\n"
+                     f"try:\n    M0 *= -0.5\nexcept ValueError:\n    pass\nM = A.get_inversion_matrix({d}, sidedness={algs.SIDE_PY[sd]})\n"
+                     f"v = np.arange(1.0, {d} + 1)\nassert np.allclose(M @ v, A.invert(v, sidedness={algs.SIDE_PY[sd]})), 'inversion matrix changed after the caller modified an earlier result'\n"},
+                    ("imat-scribbled", al, d, sd))
+                # the swapped binding matrix is built from the inversion matrix in some algebras
+                o = c.observe(lambda: A.get_binding_matrix(algs.fl(v), swap_inputs=True))
+                add(f"check_bmat {al} {c.zlist(v)} true {algs.tol_for(v, d=1)} {obs_t(o, algs.enc_mat)}",
+                    {"op": "bmat", "alg": al, "v": v, "swap": True, "kind": "after-caller-modified-an-inversion-matrix", "obs": c.obs_json(o)},
+                    ("bmat-after-imat-scribbled", al, tuple(v), sd), nontrivial=any(v))
+            for fn, nm in ((lambda: A.bind(algs.fl(v), algs.fl(v)), "bind"), (lambda: A.invert(algs.fl(v)), "invert")):
+                first = c.observe(fn)
+                if first[0] == "ok":
+                    scribble(first[1])
+            bind_case_h = c.observe(lambda: A.bind(algs.fl(v), algs.fl(v)))
+            add(f"check_bind {al} {c.zlist(v)} {c.zlist(v)} {algs.tol_for(v, v, d=d)} {obs_t(bind_case_h, algs.enc_vec)}",
+                {"op": "bind", "alg": al, "a": v, "b": v, "kind": "after-caller-modified-the-previous-result", "obs": c.obs_json(bind_case_h)},
+                ("bind-scribbled", al, tuple(v)), nontrivial=any(v))
 
     verdicts = c.coq_eval("C02", "cases", algs.IMPORTS, exprs, shard=120)
     for ok, m in zip(verdicts, meta):
@@ -207,8 +277,11 @@ def run(rep, tier, rng):
         elif op == "valid":
             snippet = P + f"print(A.is_valid_dimensionality({m['d']}))\nassert False, 'is_valid_dimensionality deviates from the model'\n"
         else:
-            snippet = P + f"a, b = np.array({m['a']}, float), np.array({m['b']}, float)\nassert np.allclose(A.superpose(a, b), a + b), 'superpose is not element-wise addition'\n"
-        rep.violation(f"{m['alg']} {op} deviates from the algebra's published formula (model value differs)",
+            snippet = P + f"a, b = np.array({m['a']}, float), np.array({m['b']}, float)\n" + (
+                "assert np.allclose(A.superpose(a, b), a + b), 'superpose is not element-wise addition'\n" if len(m['a']) == len(m['b']) else
+                "try:\n    r = A.superpose(a, b)\nexcept ValueError:\n    r = None\nassert r is None, ('superpose of unequal lengths returned', r)\n")
+        snippet = m.pop("python", snippet)
+        rep.violation(f"{m['alg']} {op}{' (' + m['kind'] + ')' if m.get('kind', '').startswith('after-') else ''} deviates from the algebra's published formula (model value differs)",
                       {"case": {k: v for k, v in m.items() if k != "obs"}, "observed": m["obs"], "python": snippet,
                        "expected": "Model/Hrr.v / Model/Vtb.v at Z (proved equal to the defining formula)"})
 
